@@ -26,6 +26,18 @@ def mk_response(params, cons, table):
         n = SymStr.fresh('n%d' % i, nl, cons, exact_len=nl, alphabet=tokenb); v = SymStr.fresh('v%d' % i, vl, cons, exact_len=vl, alphabet=valb)
         # a user header must not collide with the framing headers the serialiser adds (names are 1-3 letters here, so it cannot)
         hs.append(header(n, v)); syms['n%d' % i] = n; syms['v%d' % i] = v
+    if params.get('parts'):
+        # several byte-range parts of a file of `size` bytes: bodies arbitrary bytes of the stated lengths, consecutive offsets
+        crs = []; off = 0; size = sum(params['parts']) + 1
+        for i, bl in enumerate(params['parts']):
+            b = SymStr.fresh('b%d' % i, bl, cons, exact_len=bl) if bl else SymStr(())
+            # the multipart boundary line must not occur in the data (premise of the statement)
+            syms['b%d' % i] = b
+            crs.append(Struct('ContentRange', (S('bytes'), Struct('Range', (Int('u64', off), Int('u64', off + max(bl, 1) - 1))), S(str(size)), b, S('t/%d' % i))))
+            off += max(bl, 1)
+        syms['b'] = syms['b0']; syms['ct'] = S('t/0')
+        resp = Struct('Response', (S('HTTP/1.1'), Int('i16', code), S(table[code]), Vec(hs), Vec(crs)))
+        return resp, syms
     bl = params['blen']
     body = SymStr.fresh('b', bl, cons, exact_len=bl) if bl else SymStr(())
     ct = SymStr.fresh('ct', params['ctlen'], cons, exact_len=params['ctlen'], alphabet=valb)
@@ -65,6 +77,8 @@ def case(prog, params):
         gen = ex.explore(st)
 
     def wit(m):
+        if params.get('parts'):
+            return {'ob': 'rt', 'ser': params['ser'], 'code': params['code'], 'headers': [], 'parts': [model_bytes(m, syms['b%d' % i]).hex() for i in range(len(params['parts']))], 'body': model_bytes(m, syms['b0']).hex(), 'ctype': 't/0'}
         return {'ob': 'rt', 'ser': params['ser'], 'code': params['code'], 'headers': [(model_bytes(m, syms['n%d' % i]).decode('latin1'), model_bytes(m, syms['v%d' % i]).decode('latin1')) for i in range(params['nh'])],
                 'body': model_bytes(m, syms['b']).hex(), 'ctype': model_bytes(m, syms['ct']).decode('latin1')}
     for g in gen:
@@ -102,7 +116,12 @@ def case(prog, params):
             for i in range(params['nh']):
                 if i >= len(ph): checks.append(('header-missing', True)); break
                 checks.append(('header-name', b_not(ph[i][0].eq(syms['n%d' % i])))); checks.append(('header-value', b_not(ph[i][1].eq(syms['v%d' % i]))))
-            if len(crl.items) != 1: checks.append(('part-count-%d' % len(crl.items), True))
+            if params.get('parts'):
+                if len(crl.items) != len(params['parts']): checks.append(('part-count-%d-for-%d' % (len(crl.items), len(params['parts'])), True))
+                else:
+                    for i, cr_ in enumerate(crl.items):
+                        checks.append(('multipart-body', b_not(cr_.fields[3].eq(syms['b%d' % i])))); checks.append(('multipart-content-type', b_not(cr_.fields[4].eq(S('t/%d' % i)))))
+            elif len(crl.items) != 1: checks.append(('part-count-%d' % len(crl.items), True))
             else:
                 unit, rng, size, body, ctype = crl.items[0].fields
                 checks.append(('body', b_not(body.eq(syms['b'])))); checks.append(('content-type', b_not(ctype.eq(syms['ct']))))
@@ -120,6 +139,8 @@ def case(prog, params):
 
 
 def classify(w):
+    if w.get('parts'):
+        return ':multipart' + (':part-body-ends-with-line-break' if any(bytes.fromhex(p).endswith((b'\n', b'\r')) for p in w['parts']) else '')
     b = bytes.fromhex(w['body'])
     if b.endswith(b'\n') or b.endswith(b'\r'): return ':body-ends-with-line-break'
     if len(b) == 0: return ':empty-body'
@@ -142,6 +163,9 @@ def main():
             for cl in P['ctype_lens']:
                 for hl in P['hlens']:
                     cases.append(dict(ob='rt', ser=ser, code=200, nh=1, hlen=hl, blen=bl, ctlen=cl))
+    for ser in ('generate_response', 'generate'):
+        for parts in ([(1, 1), (2, 1), (1, 2)] if chk.tier == 'quick' else [(1, 1), (2, 1), (1, 2), (2, 2), (0, 1), (1, 1, 1)]):
+            cases.append(dict(ob='rt', ser=ser, code=206, nh=0, hlen=(1, 1), parts=list(parts)))
     cases += [dict(ob='corrupt', what='unknown-status-code', line='HTTP/1.1 299 OK'), dict(ob='corrupt', what='mismatched-reason-phrase', line='HTTP/1.1 200 Not Found'),
               dict(ob='corrupt', what='unsupported-version', line='HTTP/9.9 200 OK'), dict(ob='corrupt', what='missing-reason', line='HTTP/1.1 200')]
     results = chk.run_cases(case, cases, label='serialise -> parse', case_timeout=200)
@@ -153,6 +177,10 @@ def main():
             raw = (w['line'] + '\r\nContent-Length: 1\r\nContent-Type: t\r\nContent-Range: bytes 0-1/1\r\n\r\nx').encode()
             st, out = chk.oracle.run([('parser', [b'Response::parse', raw])])[0]
             return {'reproduced': st == 'panic' or (st == 'ok' and out[0] == b'true'), 'native': (st, [x.decode() for x in out])}
+        if w.get('parts'):
+            st, out = chk.oracle.run([('response_multipart_roundtrip', [w['ser'].encode()] + [bytes.fromhex(p) for p in w['parts']])])[0]
+            if st != 'ok': return {'reproduced': True, 'native': st, 'msg': out[0].decode('latin1')[:200] if out else ''}
+            return {'reproduced': [x.hex() for x in out] != w['parts'], 'native_parts': [x.hex() for x in out]}
         args = [w['ser'].encode(), w['code'], w['ctype'].encode('latin1'), bytes.fromhex(w['body']), len(w['headers'])] + [x.encode('latin1') for h in w['headers'] for x in h]
         st, out = chk.oracle.run([('response_roundtrip', args)])[0]
         if st != 'ok': return {'reproduced': True, 'native': st, 'msg': out[0].decode('latin1')[:200] if out else ''}
